@@ -3,10 +3,12 @@ package main
 import (
 	"bufio"
 	"fmt"
+	"io"
 	"io/ioutil"
 	"os"
 	"sort"
 	"strings"
+	"testing/iotest"
 	"time"
 
 	"pault.ag/go/debian/changelog"
@@ -25,6 +27,39 @@ func init() {
 	ops["clparse"] = func(a []string) string {
 		es, err := changelog.Parse(strings.NewReader(arg(a, 0)))
 		return showEntries(es, err)
+	}
+	// clsrc variant text: the changelog arrives through a source that chunks it differently (one byte per Read, half reads,
+	// data with EOF, 7-byte chunks, one LINE per Read as a pipe fed by a line-buffered writer does, a caller-made
+	// bufio.Reader of 16 bytes): Parse must give what it gives for the plain in-memory reader
+	ops["clsrc"] = func(a []string) string {
+		var src io.Reader = strings.NewReader(arg(a, 1))
+		switch arg(a, 0) {
+		case "onebyte":
+			src = iotest.OneByteReader(src)
+		case "half":
+			src = iotest.HalfReader(src)
+		case "dataerr":
+			src = iotest.DataErrReader(src)
+		case "chunk7":
+			src = &chunkReader{r: src, n: 7}
+		case "lines":
+			src = &lineReader{rest: arg(a, 1)}
+		case "bufio16":
+			src = bufio.NewReaderSize(src, 16)
+		}
+		return showEntries(changelog.Parse(src))
+	}
+	// clbufio text: the CALLER's *bufio.Reader (Parse uses a reader of that type as it is).  The caller parses, resets its
+	// reader onto the same text and parses again - its reader stays its own: both passes give what clparse gives
+	ops["clbufio"] = func(a []string) string {
+		br := bufio.NewReader(strings.NewReader(arg(a, 0)))
+		first := showEntries(changelog.Parse(br))
+		br.Reset(strings.NewReader(arg(a, 0)))
+		second := showEntries(changelog.Parse(br))
+		if first != second {
+			return "differ " + first + " | " + second
+		}
+		return first
 	}
 	// clparse2 first second: Parse(first) - whatever it gives - and then Parse(second) in the same process, at once
 	ops["clparse2"] = func(a []string) string {
@@ -67,6 +102,25 @@ func init() {
 		}
 		return "same"
 	}
+}
+
+// lineReader hands out one line (up to and including its newline) per Read
+type lineReader struct{ rest string }
+
+func (l *lineReader) Read(p []byte) (int, error) {
+	if l.rest == "" {
+		return 0, io.EOF
+	}
+	k := strings.IndexByte(l.rest, '\n') + 1
+	if k == 0 || k > len(l.rest) {
+		k = len(l.rest)
+	}
+	if k > len(p) {
+		k = len(p)
+	}
+	n := copy(p, l.rest[:k])
+	l.rest = l.rest[n:]
+	return n, nil
 }
 
 func showEntries(es changelog.ChangelogEntries, err error) string {
